@@ -61,6 +61,15 @@ def catalogue():
         pass
     veto = Veto()
     veto._trait_veto_notify(True)
+
+    # HasTraits values that are alive but falsy (an empty container-like model / an object defining __bool__)
+    class EmptyModel(HasTraits):
+        def __len__(self):
+            return 0
+
+    class Off(HasTraits):
+        def __bool__(self):
+            return False
     cat = [
         ("Uninitialized", Uninitialized), ("Undefined", Undefined), ("None", None),
         ("int1", 1), ("float1", 1.0), ("true", True), ("int7", 7),
@@ -72,7 +81,7 @@ def catalogue():
         ("eqraises", _EqRaises()), ("incons", _Inconsistent()), ("eqtrue_neraises", _EqTrueNeRaises()),
         ("plain_a", _Plain()), ("plain_b", _Plain()),
         ("list_a", [1, 2]), ("list_b", [1, 2]),
-        ("veto", veto),
+        ("veto", veto), ("ht_fl", EmptyModel()), ("ht_fb", Off()),
         # Expression values: valid (an equal-not-identical pair, another one, the default), invalid; `code_k` stands
         # for "the code object compile() returned" (a new object at every validation)
         ("expr_a", "".join(["1+", "1"])), ("expr_b", "".join(["1+", "1"])), ("expr_c", "".join(["2*", "3"])),
@@ -84,11 +93,12 @@ def catalogue():
 
 CAT_NAMES = ["Uninitialized", "Undefined", "None", "int1", "float1", "true", "int7", "big_a", "big_b", "str_a",
              "str_b", "str_c", "nan", "nan2", "tup_a", "tup_b", "arr_a", "arr_b", "arr1", "arr1b", "eqraises",
-             "incons", "eqtrue_neraises", "plain_a", "plain_b", "list_a", "list_b", "veto", "expr_a", "expr_b", "expr_c", "expr_0",
+             "incons", "eqtrue_neraises", "plain_a", "plain_b", "list_a", "list_b", "veto", "ht_fl", "ht_fb", "expr_a", "expr_b", "expr_c", "expr_0",
              "expr_bad", "code_k"]
 EXPR_OK = {"expr_a", "expr_b", "expr_c", "expr_0"}
 INT_NAMES = {"int1", "int7", "big_a", "big_b"}
 STR_NAMES = {"str_a", "str_b", "str_c"}
+INST_NAMES = {"None", "veto", "ht_fl", "ht_fb"}        # what Instance(HasTraits) accepts
 NO_DEFAULT = {"list_a", "list_b", "Uninitialized", "veto"}    # never used as a constant default
 
 
